@@ -27,17 +27,36 @@ Qed.
 Lemma cross_woken p0 st0 p1 c m m' : cross p0 st0 p1 (Asleep c m) = cross p0 st0 p1 (Woken m').
 Proof. reflexivity. Qed.
 
+Ltac wframe HW Hth i :=
+  let X := fresh "X" in
+  intros X; destruct (HW X) as [HWa|[HWb|[jw [HWj [HWs HWp]]]]];
+  [ left; exact HWa | right; left; exact HWb
+  | right; right; exists jw; split; [exact HWj|]; unfold pendp; cbn; unfold upd; cbn;
+    destruct (Nat.eqb jw i) eqn:EW;
+    [ apply Nat.eqb_eq in EW; subst jw; cbn in HWp, HWs; rewrite Hth in HWp, HWs; cbn in HWp, HWs; first [discriminate HWs | discriminate HWp]
+    | split; [exact HWs|exact HWp] ] ].
+Ltac wnew Hi i :=
+  intros _; right; right; exists i; split; [exact Hi|]; unfold pendp; cbn; unfold upd; cbn;
+  rewrite Nat.eqb_refl; cbn; split; reflexivity.
+
+Lemma c1112 p1 st1 : is_ready st1 && inl p1 [11;12] = true -> cM p1 st1 = true.
+Proof.
+  unfold cM. destruct (is_ready st1); [|discriminate]. cbn [andb]. intros H.
+  unfold inl in H. cbn in H. rewrite !orb_true_iff, !Nat.eqb_eq in H.
+  destruct H as [X|[X|X]]; try discriminate; subst; reflexivity.
+Qed.
+
 Lemma step_prod s i pick s' : Rex lims s -> exec P s (LStep (S (S i)) pick) = Some s' -> Rex lims s'.
 Proof.
   intros (p0 & st0 & r0 & c0 & l0 & cu0 & p1 & st1 & r1 & c1 & l1 & cu1 & om & Ht0 & Ht1 & HOM & Hn & Hpa & Hf &
           Hnm0 & Hnm1 & Hok0 & Hok1 & Hx & Hreg & Hc0 & Hc1 & Homok & Homlt & HOT & HownO & Hwq0 & Hwq1 & HwqO &
-          Hv0 & Hv1 & Hal & Hq & HG & Hran & Hsub & HPR) E.
+          Hv0 & Hv1 & Hal & Hq & HW & HG & Hran & Hsub & HPR) E.
   unfold exec in E. rewrite Hf, Hn in E.
   destruct (S (S i) <? 2 + NP lims) eqn:Elt; cbn [negb] in E; [|discriminate E].
   apply Nat.ltb_lt in Elt. assert (Hi : i < NP lims) by lia.
   destruct (HPR i Hi) as (pp & stp & rp & cp & Hth & Hpk & Hns & Hjn & Hom & Hsu).
   cbn [Nat.add] in Hth. rewrite Hth in E. cbn [stat] in E.
-  destruct Homok as (Hm1 & Hm2). destruct Hq as (Hq1 & Hq2 & Hq3).
+  destruct Homok as (Hm1 & Hm2). destruct Hq as (Hq1 & Hq2 & Hq3 & Hq4).
   assert (OTH : forall om', (om' = om \/ (om = None /\ om' = Some (S (S i))) \/ (om = Some (S (S i)) /\ om' = None)) ->
                 forall j, j < NP lims -> j <> i -> forall sx, thr sx (2 + j) = thr s (2 + j) -> subm sx = subm s ->
                 PRi lims sx p0 c0 om' j).
@@ -50,9 +69,9 @@ Proof.
   - (* Fresh -> Ready *)
     inversion E; subst s'; clear E.
     unfold Rex. exists p0, st0, r0, c0, l0, cu0, p1, st1, r1, c1, l1, cu1, om. cbn. unfold upd. cbn.
-    sp; auto.
+    sp; auto; try (wframe HW Hth i).
     + split; assumption.
-    + split; [|split]; assumption.
+    + split; [|split; [|split]]; assumption.
     + intros j Hj. destruct (Nat.eq_dec j i) as [->|Hji].
       * exists pp, Ready, rp, cp. cbn. unfold upd. cbn. rewrite ?Nat.eqb_refl. cbn in Hpk. apply Nat.eqb_eq in Hpk. subst pp.
         sp; auto; try exact Hns; try (intros X; apply Hjn in X; discriminate X);
@@ -67,7 +86,7 @@ Proof.
       match type of E with context [if ?c then _ else _] => destruct c eqn:EB end;
       inversion E; subst s'; clear E.
       all: unfold Rex; exists p0, st0, r0, c0, l0, cu0, p1, st1, r1, c1, l1, cu1, om; cbn; unfold upd; cbn;
-           sp; auto; try (split; assumption); try (split; [|split]; assumption).
+           sp; auto; try (split; assumption); try (split; [|split; [|split]]; assumption); try (intros X; discriminate X); try (wframe HW Hth i).
       all: intros j Hj; destruct (Nat.eq_dec j i) as [Eji|Hji]; [subst j|].
       all: try (apply (OTH om (or_introl eq_refl) j Hj Hji); [|reflexivity];
                 cbn; unfold upd; cbn; destruct (Nat.eqb j i) eqn:EE; [apply Nat.eqb_eq in EE; lia|reflexivity]).
@@ -77,11 +96,11 @@ Proof.
       rewrite HOM in E. destruct om as [o|] eqn:Eom; [discriminate E|].
       inversion E; subst s'; clear E.
       unfold Rex. exists p0, st0, r0, c0, l0, cu0, p1, st1, r1, c1, l1, cu1, (Some (S (S i))). cbn. unfold upd. cbn.
-      sp; auto.
+      sp; auto; try (wframe HW Hth i).
       * split; (split; intro X; [|discriminate X]); [apply Hm1 in X|apply Hm2 in X]; discriminate X.
       * intros t Xt. inversion Xt. lia.
       * intros r Hr. destruct r as [|[|r]]; try lia. cbn. apply HownO. lia.
-      * split; [|split]; assumption.
+      * split; [|split; [|split]]; assumption.
       * intros j Hj. destruct (Nat.eq_dec j i) as [->|Hji].
         -- exists 2, Ready, rp, cp. cbn. unfold upd. cbn. rewrite ?Nat.eqb_refl. cbn. sp; auto. split; reflexivity.
         -- apply (OTH (Some (S (S i))) (or_intror (or_introl (conj eq_refl eq_refl))) j Hj Hji); [|reflexivity].
@@ -89,12 +108,14 @@ Proof.
     + (* 2: IPush Q *)
       inversion E; subst s'; clear E.
       unfold Rex. exists p0, st0, r0, c0, l0, cu0, p1, st1, r1, c1, l1, cu1, om. cbn. unfold upd. cbn.
-      sp; auto.
+      sp; auto; try (wnew Hi i).
       * split; assumption.
-      * split; [|split].
+      * split; [|split; [|split]].
         -- intros _ X. apply app_eq_nil in X. destruct X as [_ X]. discriminate X.
         -- intros _ X. apply app_eq_nil in X. destruct X as [_ X]. discriminate X.
         -- intros X. apply (inl4647 p0 c0 i) in X. apply Hjn in X. discriminate X.
+        -- intros X. exfalso. apply c1112 in X. apply Hm2 in X.
+           assert (Y : om = Some (2 + i)) by (apply Hom; reflexivity). rewrite X in Y. discriminate Y.
       * rewrite HG. rewrite <- !app_assoc. reflexivity.
       * intros c Hc. apply in_app_or in Hc. destruct Hc as [Hc|[Hc|[]]]; [apply Hsub; exact Hc|subst c; cbn; lia].
       * intros j Hj. destruct (Nat.eq_dec j i) as [->|Hji].
@@ -109,11 +130,11 @@ Proof.
       rewrite HOM, Xo in E. rewrite Nat.eqb_refl in E.
       inversion E; subst s'; clear E.
       unfold Rex. exists p0, st0, r0, c0, l0, cu0, p1, st1, r1, c1, l1, cu1, None. cbn. unfold upd. cbn.
-      sp; auto.
+      sp; auto; try (wnew Hi i).
       * split; (split; intro X; [|discriminate X]); [apply Hm1 in X|apply Hm2 in X]; rewrite Xo in X; discriminate X.
       * intros t Xt. discriminate Xt.
       * intros r Hr. destruct r as [|[|r]]; try lia. cbn. apply HownO. lia.
-      * split; [|split]; assumption.
+      * split; [|split; [|split]]; assumption.
       * intros j Hj. destruct (Nat.eq_dec j i) as [->|Hji].
         -- exists 4, Ready, rp, cp. cbn. unfold upd. cbn. rewrite ?Nat.eqb_refl. cbn. sp; auto. split; intro X; discriminate X.
         -- apply (OTH None (or_intror (or_intror (conj Xo eq_refl))) j Hj Hji); [|reflexivity].
@@ -124,7 +145,7 @@ Proof.
         cbn in E. unfold wake in E. cbn in E. rewrite Ht1 in E. cbn in E.
         inversion E; subst s'; clear E.
         unfold Rex. exists p0, st0, r0, c0, l0, cu0, p1, (Woken 0), r1, c1, l1, cu1, om. cbn. unfold upd. cbn. rewrite ?Ht1. cbn.
-        sp; auto; try (split; assumption); try (split; [|split]; assumption).
+        sp; auto; try (split; assumption); try (split; [|split; [|split]]; assumption); try (intros X; discriminate X); try (wframe HW Hth i).
         all: try (intros r Hr; destruct r as [|[|r]]; try lia; cbn; apply HwqO; lia).
         all: intros j Hj; destruct (Nat.eq_dec j i) as [Eji|Hji]; [subst j|].
         all: try (apply (OTH om (or_introl eq_refl) j Hj Hji); [|reflexivity];
@@ -133,7 +154,8 @@ Proof.
         all: split; intro X; [apply Hom in X; discriminate X|discriminate X].
       * cbn in E. inversion E; subst s'; clear E.
         unfold Rex. exists p0, st0, r0, c0, l0, cu0, p1, st1, r1, c1, l1, cu1, om. cbn. unfold upd. cbn. rewrite ?EA.
-        sp; auto; try (split; assumption); try (split; [|split]; assumption).
+        sp; auto; try (split; assumption); try (split; [|split; [|split]]; assumption); try (intros X; discriminate X);
+          try (intros X; rewrite EA in X; discriminate X).
         all: intros j Hj; destruct (Nat.eq_dec j i) as [Eji|Hji]; [subst j|].
         all: try (apply (OTH om (or_introl eq_refl) j Hj Hji); [|reflexivity];
                   cbn; unfold upd; cbn; destruct (Nat.eqb j i) eqn:EE; [apply Nat.eqb_eq in EE; lia|reflexivity]).
@@ -142,7 +164,7 @@ Proof.
     + (* 5: IJmp 0 *)
       inversion E; subst s'; clear E.
       unfold Rex. exists p0, st0, r0, c0, l0, cu0, p1, st1, r1, c1, l1, cu1, om. cbn. unfold upd. cbn.
-      sp; auto; try (split; assumption); try (split; [|split]; assumption).
+      sp; auto; try (split; assumption); try (split; [|split; [|split]]; assumption); try (intros X; discriminate X); try (wframe HW Hth i).
       all: intros j Hj; destruct (Nat.eq_dec j i) as [Eji|Hji]; [subst j|].
       all: try (apply (OTH om (or_introl eq_refl) j Hj Hji); [|reflexivity];
                 cbn; unfold upd; cbn; destruct (Nat.eqb j i) eqn:EE; [apply Nat.eqb_eq in EE; lia|reflexivity]).
@@ -151,7 +173,7 @@ Proof.
     + (* 6: IEnd *)
       inversion E; subst s'; clear E.
       unfold Rex. exists p0, st0, r0, c0, l0, cu0, p1, st1, r1, c1, l1, cu1, om. cbn. unfold upd. cbn.
-      sp; auto; try (split; assumption); try (split; [|split]; assumption).
+      sp; auto; try (split; assumption); try (split; [|split; [|split]]; assumption); try (intros X; discriminate X); try (wframe HW Hth i).
       all: intros j Hj; destruct (Nat.eq_dec j i) as [Eji|Hji]; [subst j|].
       all: try (apply (OTH om (or_introl eq_refl) j Hj Hji); [|reflexivity];
                 cbn; unfold upd; cbn; destruct (Nat.eqb j i) eqn:EE; [apply Nat.eqb_eq in EE; lia|reflexivity]).
